@@ -298,9 +298,18 @@ class Discharger:
                 cl, ci = _const(ln), _const(ix)
                 if cl is not None and ci is not None and 0 <= ci < cl:
                     return ("CONST-INDEX", "constant index %d < constant length %d" % (ci, cl))
-                g = _cmp_true(facts, ix, "Lt", ln)
-                if g is not None:
-                    return ("CMP-DOM", "%s < %s established in bb%d" % (ix, ln, g))
+                alts = [ln]
+                m = re.fullmatch(r"\(PtrMetadata (.*)\)", ln)
+                if m:
+                    x = m.group(1)
+                    alts += ["core::slice::<impl [T]>::len(&*%s)" % x, "core::slice::<impl [T]>::len(%s)" % x, "core::slice::<impl [T]>::len(&%s)" % x]
+                    mm = re.fullmatch(r"&?\*?<std::vec::Vec<T, A> as std::ops::Deref>::deref\((.*)\)", x)
+                    if mm:
+                        alts.append("std::vec::Vec::<T, A>::len(%s)" % mm.group(1))
+                for l2 in alts:
+                    g = _cmp_true(facts, ix, "Lt", l2)
+                    if g is not None:
+                        return ("CMP-DOM", "%s < %s established in bb%d" % (ix, l2, g))
                 return self._index_guard(S, facts, ln_expr=ln, coll=None, ix=ix)
             return None
         # calls
